@@ -40,6 +40,7 @@ InitModel(cfg) ==
       everFault |-> FALSE,
       closedOnce |-> FALSE,
       texts    |-> Opt(cfg, "status_texts", <<>>),
+      exttexts |-> Opt(cfg, "ext_texts", <<>>),                  \* <<status, extended status, text>> triples the library knows
       slc      |-> Opt(cfg, "slc", <<>>),
       hasslc   |-> Has(cfg, "slc"),
       slcPre   |-> Opt(cfg, "slc", <<>>),
@@ -180,7 +181,8 @@ TxStep0(m, ev) ==
     LET SizeUsers == IF m.lx.on THEN "+C01:negotiated-size+C02:negotiated-size" ELSE "" IN
     IF Has(ev.choice, "incomplete") THEN Bad(m, "C11:framing")
     ELSE LET pf == ParseFrame(ev.b)  ch == ev.choice IN
-    IF ~pf.ok THEN Bad(m, pf.why \o (IF m.call.api \in {"open", "enter"} THEN (IF m.closedOnce THEN "+C10:reopen" ELSE "+C10:open-failed") ELSE ""))   \* a target refuses a malformed frame: the open it belongs to cannot succeed
+    IF ~pf.ok THEN Bad(m, pf.why \o (IF m.call.api \in {"open", "enter"} THEN (IF m.closedOnce THEN "+C10:reopen" ELSE "+C10:open-failed")
+                                   ELSE IF m.call.api \in {"close", "exit"} THEN "+C10:close-malformed" ELSE ""))   \* a target refuses a malformed frame: the open it belongs to cannot succeed
     ELSE IF m.pend.kind # "none" THEN Bad(m, "MACHINERY:request-while-reply-pending")
     ELSE IF pf.kind = "register" THEN
         (IF pf.handle # Zero4 THEN Bad(m, "C11:handle")
@@ -345,7 +347,12 @@ RetStep(m, ev) ==
              (IF TagTruthy(tg[1]) THEN Bad(m, "C13:success-on-error+C14:refused-truthy")
               ELSE IF ~IsS(tg[1].error) \/ Len(tg[1].error.s) = 0 THEN Bad(m, "C13:empty-error+C14:status-text")
               ELSE IF ~NamesStatusT(m.texts, tg[1].error, m.last.status) THEN Bad(m, "C13:status-not-named+C14:status-text")
-              ELSE Good(m))
+              \* an additional status the library has a text for (one word, or two words with a zero high word) is named too
+              ELSE LET e == m.last.ext
+                       known == IF Len(e) = 1 \/ (Len(e) = 2 /\ e[2] = 0)
+                                THEN {i \in 1..Len(m.exttexts) : m.exttexts[i][1] = m.last.status /\ m.exttexts[i][2] = e[1]} ELSE {}
+                   IN IF known # {} /\ ~ContainsSeq(tg[1].error.s, m.exttexts[CHOOSE i \in known : TRUE][3])
+                      THEN Bad(m, "C13:extended-status-not-named") ELSE Good(m))
         ELSE IF Has(it, "dtype")
              THEN LET d == Dec(it.dtype, m.last.data) IN
                   IF d.st = "ok" THEN (IF TagTruthy(tg[1]) /\ TermEq(tg[1].value, d.val) THEN Good(m)
